@@ -364,7 +364,7 @@ def main(tier: str, seed: int):
     sess = Session(PID, tier, seed, level="exploration", rule=RULE)
     sess.assume("cache TTLs are not crossed inside a history (TTL expiry on the injected clock is C15's subject)")
     sess.assume("histories are class-pure (one mutation kind each) so that a difference is attributable to (cache layer, mutation kind)")
-    total = 150 if tier == "quick" else 8000
+    total = 150 if tier == "quick" else 30000
     nchunks = par.NWORK
     per = max(1, total // nchunks)
     for ex in par.pmap(_chunk, [(tier, seed, i, per) for i in range(nchunks)]):
